@@ -6,6 +6,8 @@ import FFSM2.Props.C04
 import FFSM2.Props.C09
 import FFSM2.Lemmas.SilentGen
 import FFSM2.Lemmas.NoPlan
+import FFSM2.Lemmas.PrevInv
+import FFSM2.Props.C11
 /-!
 # Run-level theorems: the per-call theorems lifted to every history
 
@@ -197,7 +199,7 @@ theorem apiStep_life {w : World} {env : Env} (hwf : env.cfg.WF) (hw : WorldOk en
   | load c sc src hsrc hm =>
     obtain ⟨h1, h2⟩ := load_life env hwf c sc (hw src sc hsrc) hm
     exact ⟨rfl, h1, h2⟩
-  | replayEnter c d hm ha hd =>
+  | replayEnter c d _ hm ha hd =>
     have hne : (255 : Nat) ≠ d := fun e => id_ne_255 hwf hd e.symm
     have hs := deepEnter_spec env {} { core := { (applyRequest {} d c).1 with prev := ⟨255, d, none⟩ } }
     have hreq : ({ (applyRequest {} d c).1 with prev := ⟨255, d, none⟩ } : Core).requested = d := by
@@ -207,8 +209,8 @@ theorem apiStep_life {w : World} {env : Env} (hwf : env.cfg.WF) (hw : WorldOk en
     simp only [Step.seq, modifyCore, List.nil_append, List.append_nil]
     rw [hs.1, hs.2.2, hreq, ha]
     exact LifePath.activate (id_ne_255 hwf hd) (LifePath.nil _)
-  | replayClear c ha => exact ⟨rfl, LifePath.nil _, fun _ => ha⟩
-  | replayTransition c d ha hd =>
+  | replayClear c _ ha => exact ⟨rfl, LifePath.nil _, fun _ => ha⟩
+  | replayTransition c d _ ha hd =>
     obtain ⟨h1, h2⟩ := C01_replayTransition env d (id_ne_255 hwf hd) { core := c } ha
     rw [h2]
     exact ⟨rfl, h1, fun _ => id_ne_255 hwf hd⟩
@@ -993,6 +995,186 @@ theorem C02_history_request_inert (cfg : Cfg) (beh : Beh) (w : World) (k i d : N
     rw [if_pos hcond, onCore_fst, World.get_put_same] at hget
     cases hget
     rfl
+
+/-! ### C11: `previousTransition()` on every reachable state; a replica fed from it stays in sync -/
+
+theorem prev_clear_invalid (t : Tr) : t.clear.valid = false := by simp [Tr.clear, Tr.valid]
+
+theorem prevOk_finalExit (env : Env) (s : St) (h : PrevOk env.cfg s.core) : PrevOk env.cfg (finalExit env s).1.core := by
+  have hp := finalExit_prev env s
+  unfold PrevOk at *
+  by_cases hh : env.cfg.history = true
+  · simp only [hh, if_true] at *
+    rw [hp]; intro hv; rw [prev_clear_invalid] at hv; cases hv
+  · have hh' : env.cfg.history = false := by simpa using hh
+    simp only [hh', Bool.false_eq_true, if_false] at *
+    rw [hp]; exact h
+
+theorem prev_invalid_of_inactive {cfg : Cfg} {c : Core} (h : PrevOk cfg c) (ha : c.active = 255) : c.prev.valid = false := by
+  unfold PrevOk at h
+  split at h
+  · cases hv : c.prev.valid
+    · rfl
+    · have := h hv
+      rw [ha] at this
+      simp [Tr.valid, this] at hv
+  · exact h
+
+theorem prevOk_load (env : Env) (buf : List Nat) (s : St) (h : PrevOk env.cfg s.core) : PrevOk env.cfg (load env buf s).1.core := by
+  unfold load
+  dsimp only
+  split
+  · split
+    · -- loadActive: history cleared (or never present), then a change that does not write it
+      unfold loadActive
+      simp only [Step.seq, modifyCore]
+      apply prevOk_of_cleared
+      rw [prevSame_changeToRequested]
+      have hi : ¬ env.cfg.history = true → s.core.prev.valid = false := by
+        intro hh; unfold PrevOk at h; simpa [hh] using h
+      cases hp : env.cfg.plans <;> cases hh : env.cfg.history <;> simp [planDataClear, prev_clear_invalid] <;> exact hi (by simp [hh])
+    · rename_i hact
+      have ha : s.core.active = 255 := by simpa using hact
+      have hinv := prev_invalid_of_inactive h ha
+      split
+      · apply prevOk_of_cleared
+        simp only [Step.seq, modifyCore]
+        rw [prevSame_deepEnter]; exact hinv
+      · exact h
+  · split
+    · exact prevOk_finalExit env s h
+    · exact h
+
+theorem apiStep_prevOk {w : World} {env : Env} (hwf : env.cfg.WF) {tag : ApiTag} {slot : Option Core} {c : Core} {f : Step}
+    (h : ApiStep env.cfg w env tag slot c f) (hc : PrevOk env.cfg c) : PrevOk env.cfg (f { core := c }).1.core := by
+  cases h with
+  | constructManual => exact hc
+  | constructAuto => exact prevOk_initialEnter env _ hc
+  | enter => exact prevOk_initialEnter env _ hc
+  | exit => exact prevOk_finalExit env _ hc
+  | update => exact prevOk_cycle env _ _ _ _ hc
+  | react => exact prevOk_cycle env _ _ _ _ hc
+  | query =>
+    have hq : PrevSame (query env) := by
+      unfold query
+      exact prevSame_dep fun s0 => PrevSame.seq (prevSame_deliver env _ _ _ _) (prevSame_deliver env _ _ _ _)
+    exact prevOk_of_same hc (hq _) (query_quiet env _).2
+  | change => exact prevOk_of_same hc rfl rfl
+  | immediate c d p => exact prevOk_processRequest env _ (prevOk_of_same hc rfl rfl)
+  | status c id ok => exact prevOk_of_same hc (by cases ok <;> rfl) (by cases ok <;> rfl)
+  | planAppend c o d p => exact prevOk_of_same hc (prevSame_applyAction env 255 _ _) (stable_applyAction env 255 _ _).1
+  | planEdit c a => exact prevOk_of_same hc (prevSame_applyAction env 255 a _) (stable_applyAction env 255 a _).1
+  | load => exact prevOk_load env _ _ hc
+  | replayEnter c d hh hm ha hd =>
+    have hne : d ≠ 255 := id_ne_255 hwf hd
+    have hact := (C11_replayEnter_spec env d hne { core := c }).1
+    have hprev : (replayEnter env d { core := c }).1.core.prev = ⟨255, d, none⟩ := by
+      unfold replayEnter
+      simp only [Step.seq, modifyCore]
+      rw [prevSame_deepEnter]
+    unfold PrevOk
+    simp only [hh, if_true]
+    rw [hprev, hact]; intro _; rfl
+  | replayClear c hh ha =>
+    apply prevOk_of_cleared
+    exact prev_clear_invalid _
+  | replayTransition c d hh ha hd =>
+    have hne : d ≠ 255 := id_ne_255 hwf hd
+    have hact := (C11_replay_spec env d hne { core := c }).1
+    have hprev : (replayTransition env d { core := c }).1.core.prev = ⟨255, d, none⟩ := by
+      unfold replayTransition
+      simp only [Step.seq, modifyCore]
+      rw [prevSame_changeToRequested]
+    unfold PrevOk
+    simp only [hh, if_true]
+    rw [hprev, hact]; intro _; rfl
+  | attachLogger => exact prevOk_of_same hc rfl rfl
+
+def WorldPrevOk (cfg : Cfg) (w : World) : Prop := ∀ i c, w.get i = some c → PrevOk cfg c
+
+theorem stepAll_prevOk (cfg : Cfg) (hwf : cfg.WF) (beh : Beh) (w : World) (k : Nat) (op : Op) (hw : WorldPrevOk cfg w) :
+    WorldPrevOk cfg (stepAll cfg beh w k op).1 := by
+  have h := stepAll_shape cfg beh w k op
+  generalize stepAll cfg beh w k op = r at h
+  have put : ∀ (i : Nat) (c : Option Core), (∀ c0, c = some c0 → PrevOk cfg c0) → WorldPrevOk cfg (w.put i c) := by
+    intro i c hc j cj hj
+    by_cases e : j = i
+    · subst e; rw [World.get_put_same] at hj; exact hc cj hj
+    · rw [World.get_put_ne _ _ _ _ e] at hj; exact hw j cj hj
+  cases h with
+  | copy src sc hop h1 h2 => exact put _ _ (fun c0 e => by cases e; exact hw src sc h2)
+  | step op' hs hd =>
+    cases hs with
+    | rejected name => exact hw
+    | call tag slot c f ret name htag hget hf =>
+      rw [onCore_fst]
+      refine put _ _ (fun c0 e => ?_)
+      cases e
+      refine apiStep_prevOk (env := ⟨cfg, beh, op.inst, k⟩) hwf hf ?_
+      cases hf with
+      | constructManual => exact prevOk_of_cleared rfl
+      | constructAuto => exact prevOk_of_cleared rfl
+      | _ => exact hw _ _ hget
+    | destroyManual c name hop hm hget => exact put _ _ (fun c0 e => by cases e)
+    | destroyAuto c name hm hget => exact put _ _ (fun c0 e => by cases e)
+    | save c name o hget => exact hw
+
+/-- **C11 over whole histories — the history names where the machine is**: in every state any history can
+    reach, a present `previousTransition()` has the active state as its destination (so a machine that is
+    inactive, or whose last call applied nothing, shows none), and with transition history disabled none is
+    ever shown -/
+theorem C11_history_prev_names_active (cfg : Cfg) (hwf : cfg.WF) (beh : Beh) (ops : List Op) (i : Nat) (c : Core)
+    (h : (run cfg beh ops).1.get i = some c) :
+    (cfg.history = true → c.prev.valid = true → c.prev.dest = c.active) ∧
+    (cfg.history = false → c.prev.valid = false) := by
+  have gen : ∀ (ops : List Op) (w : World) (k : Nat), WorldPrevOk cfg w → WorldPrevOk cfg (runFrom cfg beh w k ops).1 := by
+    intro ops
+    induction ops with
+    | nil => intro w k hw; exact hw
+    | cons op ops ih => intro w k hw; exact ih _ _ (stepAll_prevOk cfg hwf beh w k op hw)
+  have hok : PrevOk cfg c := gen ops [] 0 (fun i c h => by simp [World.get] at h) i c h
+  unfold PrevOk at hok
+  constructor
+  · intro hh; simpa [hh] using hok
+  · intro hh; simpa [hh] using hok
+
+/-- **C11 over whole histories — a replica fed the authority's history is in the authority's state.**  From any
+    reachable world, for an active authority `a` and an active replica `r` (transition history enabled):
+    after `replica.replayTransition(authority.previousTransition().destination)` the replica is in the
+    authority's active state whenever the authority has a history to give; when it has none
+    (`destination == INVALID`) the replica stays where it was. -/
+theorem C11_history_replica_sync (cfg : Cfg) (hwf : cfg.WF) (hh : cfg.history = true) (beh : Beh) (ops : List Op)
+    (a r k : Nat) (ca cr : Core)
+    (ha : (run cfg beh ops).1.get a = some ca) (hr : (run cfg beh ops).1.get r = some cr) (hract : cr.active ≠ 255) :
+    actOf ((stepAll cfg beh (run cfg beh ops).1 k (.replayFrom r a)).1.get r) =
+      if ca.prev.valid then ca.active else cr.active := by
+  have hprev := (C11_history_prev_names_active cfg hwf beh ops a ca ha).1 hh
+  have hok := run_worldOk cfg hwf beh ops a ca ha
+  generalize (run cfg beh ops).1 = w at ha hr
+  have hra : (cr.active != 255) = true := by simpa using hract
+  cases hv : ca.prev.valid
+  · -- nothing to replay: `replayTransition(INVALID)`
+    have hd : (if cfg.history = true then ca.prev.canon.dest else 255) = 255 := by
+      simp [hh, Tr.canon, hv]
+    simp only [stepAll, ha, hd, Bool.false_eq_true, if_false]
+    simp only [step, Op.inst, Op.name, hr, hh, hra, Bool.true_and, idOk, beq_self_eq_true, Bool.or_true, if_true]
+    rw [onCore_fst, World.get_put_same]
+    rfl
+  · have hdest : ca.prev.dest = ca.active := hprev hv
+    have hne : ca.prev.dest ≠ 255 := by simpa [Tr.valid] using hv
+    have hlt : ca.prev.dest < cfg.n := by
+      rcases hok.active with h1 | h1
+      · rw [hdest]; exact h1
+      · rw [hdest] at hne; exact absurd h1 hne
+    have hd : (if cfg.history = true then ca.prev.canon.dest else 255) = ca.prev.dest := by
+      simp [hh, Tr.canon, hv]
+    have hne' : (ca.prev.dest == 255) = false := by simpa using hne
+    simp only [stepAll, ha, hd, if_true]
+    simp only [step, Op.inst, Op.name, hr, hh, hra, Bool.true_and, idOk, decide_eq_true hlt, Bool.true_or, if_true, hne',
+      Bool.false_eq_true, if_false]
+    rw [onCore_fst, World.get_put_same]
+    show (replayTransition ⟨cfg, beh, r, k⟩ ca.prev.dest { core := cr }).1.core.active = ca.active
+    rw [(C11_replay_spec _ _ hne _).1, hdest]
 
 /-- non-vacuity: two instances interleaved, a copy, a vetoed request; instance 0's path is paired and the
     hypotheses of `C01_history` hold for it -/
